@@ -197,7 +197,7 @@ func helperFor(t Ty, pfx string) string {
 	case "int64":
 		basic("1<<40 + 5", "-9", "0", "v + 1", "strconv.FormatInt(v, 10)")
 	case "float64":
-		basic("1.5", "-0.5", "0", "v + 0.5", "strconv.FormatFloat(v, 'g', -1, 64)")
+		basic("1.5", "func() float64 { z := 0.0; return -z }()", "0", "v + 0.5", "strconv.FormatFloat(v, 'g', -1, 64)")
 	case "string":
 		basic(`"go"`, `"x y"`, `""`, `v + "x"`, `"'" + v + "'"`)
 	case "HI":
